@@ -524,6 +524,11 @@ func c19Run(c *h.Ctx) {
 			c19Nfdc(c, id, c.Rng(id))
 		}
 	}
+	if c.Batch == 3 || (c.Thorough() && c.Batch%4 == 3) {
+		if id := "nfdcburst"; c.Case(id) {
+			c19NfdcBurst(c, id, c.Rng(id))
+		}
+	}
 	for k := 0; k < c.Pick(8, 100); k++ {
 		id := fmt.Sprintf("repl%d", k)
 		if c.Case(id) {
@@ -537,7 +542,7 @@ func init() {
 		ID: "C19", Level: "exploration",
 		Rule: "(a) on the C18 harness (2-4 routers, random connected graph): exchange rounds, single exchanges, prefix announcements/withdrawals (multi-homed prefixes included) propagated through the real prefix-sync update handler and the owner's real publication store, link removals (neighbour expiry) and additions; after every event the daemon's own follow-up goroutines are awaited, its management command queue is drained and the rib register/unregister stream is replayed into a route table, " +
 			"which must equal a from-scratch computation from the router's current RIB x prefix table x neighbour faces (best and finite second-best next hop faces, minimum cost per face, <router>/32=DV and every announced prefix); (b) a publisher performs 1-400 announce/withdraw operations while a peer catches up after gaps of 1,2,5,99,100,101,130,150 operations (gap > 100 forces the snapshot path) using the router's own fetch loop; after each catch-up the peer's prefix set for the publisher must equal the publisher's announced set; " +
-			"(c) the real nfdc command thread against an engine that transiently refuses PRNG-chosen invocations: the accepted invocations, in order, must leave the routes the issued register/unregister stream prescribes; distinct = event classes and sync-gap classes",
+			"(c) the real nfdc command thread against an engine that transiently refuses PRNG-chosen invocations: the accepted invocations, in order, must leave the routes the issued register/unregister stream prescribes; one burst of 4300-4800 commands (more than the queue holds) must reach the forwarder completely; distinct = event classes and sync-gap classes",
 		Assumptions: []string{"prefix-table Interests are relayed by the harness only while the owner is reachable; lost Interests are simply not answered", "neighbour infrastructure routes (/localhop, sync prefixes) are filtered by name and not part of the mirror comparison", "hooks: dv/dv, dv/table, dv/nfdc verif_hooks.go"},
 		Batches:     func(t bool) int { return 16 },
 		ChildTimeoutS: func(t bool) int {
